@@ -3,8 +3,10 @@ module verifharness
 go 1.13
 
 require (
+	github.com/VolantMQ/vlapi v0.5.6
 	github.com/VolantMQ/volantmq v0.0.0
 	github.com/gobwas/ws v1.0.2
+	gitlab.com/VolantMQ/vlplugin/persistence/mem v0.0.7
 )
 
 replace github.com/VolantMQ/volantmq => /repo
